@@ -4,7 +4,7 @@ CONSTANTS
   Addrs = {"a1", "a2", "a3"}
   Filt = {}
   DefectByAddr = FALSE
-  MaxLen = 3
+  MaxLen = 2
   WithBad = FALSE
   WithDup = TRUE
   MaxLevel = 5
